@@ -114,7 +114,7 @@ REQUIRE = {
     "role_scp_only_contexts": 20, "role_both_contexts": 20, "ups_substitutions": 4, "meta_substitutions": 4,
     "ctx_ts_be": 10, "ctx_ts_deflated": 10, "ctx_ts_compressed": 10, "from_ts_compressed_sent": 5,
     "gvc_direct_evals": 15000, "gvc_direct_raises": 2000, "gvc_direct_exact": 1500, "gvc_direct_converted": 600,
-    "gvc_live_calls": 400, "tap_sends": 1200,
+    "gvc_live_calls": 400, "tap_sends": 1200, "peer_subop_cases": 8,
     "sent_C-ECHO-RQ": 40, "sent_C-STORE-RQ": 150, "sent_C-FIND-RQ": 40, "sent_C-GET-RQ": 60, "sent_C-MOVE-RQ": 30,
     "sent_C-CANCEL-RQ": 5, "sent_N-GET-RQ": 8, "sent_N-SET-RQ": 8, "sent_N-ACTION-RQ": 15, "sent_N-CREATE-RQ": 8,
     "sent_N-DELETE-RQ": 2, "sent_N-EVENT-REPORT-RQ": 20, "sent_C-STORE-RSP": 150, "sent_C-FIND-RSP": 80,
@@ -760,6 +760,10 @@ def gen_cases(tier, seed):
     cases = pinned_cases()
     cases += [gen_assoc_case(seed, i) for i in range(n_assoc)]
     cases += [gen_direct_case(seed, b, per) for b in range(n_blocks)]
+    for rep in range(1 if tier == "quick" else 10):
+        for bad in ("rejected", "never-proposed", "even", "zero"):
+            for sop in ("rejected-class", "accepted-class"):
+                cases.append({"kind": "peer-subop", "bad_ctx": bad, "sop": sop, "rep": rep})
     # interleave so that every worker gets both kinds
     return cases
 
@@ -1462,9 +1466,100 @@ def _finish(an, case, reg, outcomes, inconclusive):
             "counters": an.c, "inconclusive": inconclusive, "sigs": sorted(an.sigs)}
 
 
+def run_peer_subop(case):
+    """A real requestor runs C-GET against a scripted acceptor that sends its C-STORE sub-operation on a presentation context id
+    that was NOT accepted (rejected, never proposed, even, 0).  Whatever pynetdicom then sends must still travel on accepted contexts
+    only (it may abort instead); judged from the bytes the scripted acceptor received."""
+    from pydicom.dataset import Dataset
+    from pynetdicom import build_role, evt
+    from vlib import cmdset, harness, peer as vpeer, ps38, taps
+    taps.reset()
+    GETU = "1.2.840.10008.5.1.4.1.2.1.3"
+    bad = case["bad_ctx"]
+    lst = vpeer.Listener()
+    done = {}
+    handler_calls = []
+
+    def script():
+        q = lst.accept(5.0)
+        if q is None:
+            return
+        try:
+            rq = q.recv_pdu(4.0)
+            if not rq or rq.get("type") != "RQ":
+                return
+            # accept the C-GET context and CT (where the requestor offers the SCP role); reject MR
+            results = {}
+            for pc in rq["pcs"]:
+                results[pc["id"]] = 0 if pc["abs"] in (GETU, CT) else 3
+            ac = ps38.make_ac(rq, results=results, extra_ui=[{"k": "role", "uid": CT, "scu": 1, "scp": 1}, {"k": "role", "uid": MR, "scu": 1, "scp": 1}])
+            done["accepted"] = sorted(pc["id"] for pc in ac["pcs"] if pc["result"] == 0)
+            done["rejected"] = sorted(pc["id"] for pc in ac["pcs"] if pc["result"] != 0)
+            q.send_pdu(ac)
+            m = q.recv_dimse(4.0)
+            if not m or m.get("type") != "DIMSE":
+                return
+            ctx_bad = {"rejected": (done["rejected"] or [99])[0], "never-proposed": 201, "even": 4, "zero": 0}[bad]
+            sop = MR if case["sop"] == "rejected-class" else CT
+            cmd = cmdset.make("C-STORE-RQ", AffectedSOPClassUID=sop, MessageID=77, Priority=0, AffectedSOPInstanceUID="1.2.3.4.5", CommandDataSetType=0)
+            ds = b"\x08\x00\x16\x00" + len(sop.encode().ljust(len(sop) + len(sop) % 2, b"\0")).to_bytes(4, "little") + sop.encode().ljust(len(sop) + len(sop) % 2, b"\0")
+            q.send_dimse(ctx_bad, cmd, ds)
+            done["sent_on"] = ctx_bad
+            q.drain(quiet=0.6, limit=3.0)
+            done["rx"] = q.rx_all
+        finally:
+            q.close()
+    th = threading.Thread(target=script, daemon=True)
+    th.start()
+    ae = harness.make_ae("C18-SCU", timeouts=(3.0, 3.0, 4.0, 3.0))
+    ae.add_requested_context(GETU)
+    ae.add_requested_context(CT)
+    ae.add_requested_context(MR)
+    roles = [build_role(CT, scu_role=True, scp_role=True), build_role(MR, scu_role=True, scp_role=True)]
+
+    def on_store(event):
+        handler_calls.append(event.context.context_id)
+        return 0x0000
+    viol, obs = [], {"kind": "peer-subop", "bad_ctx": bad, "sop": case["sop"]}
+    try:
+        assoc = ae.associate("127.0.0.1", lst.port, ext_neg=roles, evt_handlers=[(evt.EVT_C_STORE, on_store)])
+        if assoc.is_established:
+            ident = Dataset(); ident.QueryRetrieveLevel = "PATIENT"; ident.PatientID = "X"
+            obs["get_statuses"] = [getattr(st, "Status", None) for st, _ in assoc.send_c_get(ident, GETU)]
+            if assoc.is_established:
+                assoc.release()
+        th.join(8.0)
+    finally:
+        lst.close()
+        harness.stop_ae(ae, 2.0)
+    counters = {"peer_subop_cases": 1}
+    rx = done.get("rx")
+    if rx is None or "sent_on" not in done:
+        return {"key": sha(["peer-subop", bad, case["sop"], "setup"]), "nontrivial": False, "sample": obs, "violations": [], "counters": counters,
+                "sigs": [], "hashes": [], "inconclusive": "scripted acceptor did not get to send its sub-operation"}
+    pdus, _rest = ps38.split_stream(rx)
+    sent_ctx = []
+    for b in pdus:
+        if b[0] == 4:
+            for pv in ps38.decode(b)["pdvs"]:
+                sent_ctx.append(pv["id"])
+    obs.update(accepted=done["accepted"], rejected=done["rejected"], subop_sent_on=done["sent_on"], pynetdicom_sent_pdvs_on=sorted(set(sent_ctx)),
+               handler_calls=handler_calls)
+    counters["peer_subop_pdvs_checked"] = len(sent_ctx)
+    for cx in sorted(set(sent_ctx)):
+        if cx not in done["accepted"]:
+            viol.append({"key": "sent-on-non-accepted-context|after-subop-on-%s-context|%s" % (bad, case["sop"]),
+                         "detail": "the acceptor sent a C-STORE sub-operation on context %r (accepted ids %r): pynetdicom answered with a DIMSE "
+                                   "message on context %d" % (done["sent_on"], done["accepted"], cx)})
+    return {"key": sha(["peer-subop", bad, case["sop"]]), "nontrivial": True, "sample": obs, "violations": viol, "counters": counters,
+            "sigs": ["peer-subop|%s|%s" % (bad, case["sop"])], "hashes": [], "inconclusive": None}
+
+
 def run_case(case):
     if case["kind"] == "direct":
         return run_direct(case)
+    if case["kind"] == "peer-subop":
+        return run_peer_subop(case)
     return run_assoc(case)
 
 
